@@ -73,6 +73,10 @@ def from_bytes(b):
 
 
 def lazy(length, fn, maxlen=None):
+    if not is_conc(length):
+        e = z3.simplify(length.e)
+        if z3.is_bv_value(e):
+            length = e.as_signed_long()
     if is_conc(length):
         if length <= MATERIALISE_MAX:
             return BT(length, cells=[fn(k) for k in range(length)])
